@@ -203,7 +203,7 @@ def nearest_shortest_queue_ranking(
     # amongst the possible on-shift charging options at this station
     initial: Tuple[Optional[str], float] = (None, max_dist)
     best_charger_id, best_charger_rank = ft.reduce(
-        _inner, station.on_shift_access_chargers, initial
+        _inner, sorted(station.on_shift_access_chargers), initial
     )
 
     return (
